@@ -510,8 +510,8 @@ pub fn workers_apply(f: Format) -> bool {
 }
 
 /// E1 body: document x API x worker count x sink mode, then every poll decision / schedule.
-pub fn writer_body(ch: &Chooser, cases: &[WCase], workers: &[usize], modes: &[PollMode]) -> Outcome {
-    let case = ch.pick_free("doc", cases);
+pub fn writer_body(ch: &Chooser, cases: &[&WCase], workers: &[usize], modes: &[PollMode]) -> Outcome {
+    let case = *ch.pick_free("doc", cases);
     let ai = ch.free("api", case.apis.len());
     let api = case.apis[ai];
     let w = if workers_apply(case.format) { *ch.pick_free("workers", workers) } else { 1 };
